@@ -100,7 +100,8 @@ def check_extractions(rep, fn, rule, sigs=None):
             if i in cut:
                 continue
             st.extend(F.g.nodes[i].succ)
-        strings = {v for v in vs if 'string' in F.lower.locals.get(v, '')}
+        ptypes = {p_['name']: p_.get('ty', '') for p_ in fn.get('params', [])}
+        strings = {v for v in vs if 'string' in F.lower.locals.get(v, '') or 'string' in ptypes.get(v, '')}
         if any(x[0] == 'call' and x[1].endswith('getline') for e in
                ([('call', node.stmt[1]) + tuple(node.stmt[2])] if node.kind == 'call' else F.exprs(node))
                for x in ir.subexprs(e)):
